@@ -21,3 +21,76 @@ package xslices
 //@   ensures forall k int {result[k]} :: 0 <= k && k < len(s) ==> result[k] == s[k]
 //@   ensures old(cap(s) <= len(s) + n) ==> result == s
 //@   ensures old(cap(s) > len(s) + n) ==> fresh(result) && cap(result) == len(s) + n
+
+// ---- simple loops ----
+
+//@ func All
+//@   props C19
+//@   requires f != nil
+//@   loop 0: invariant forall t int {s[t]} :: 0 <= t && t < idx0 ==> f(s[t])
+//@   ensures result <==> (forall t int {s[t]} :: 0 <= t && t < len(s) ==> f(s[t]))
+
+//@ func Fill
+//@   props C19
+//@   modifies elems(s)
+//@   loop 0: invariant forall t int {s[t]} :: 0 <= t && t < idx0 ==> s[t] == x
+//@   loop 0: invariant forall k int {row(s)[k]} :: k < off(s) || k >= off(s) + len(s) ==> row(s)[k] == old(row(s)[k])
+//@   ensures forall t int {s[t]} :: 0 <= t && t < len(s) ==> s[t] == x
+//@   ensures forall k int {row(s)[k]} :: k < off(s) || k >= off(s) + len(s) ==> row(s)[k] == old(row(s)[k])
+
+//@ func Clear
+//@   props C19
+//@   modifies elems(s)
+//@   ensures forall t int {s[t]} :: 0 <= t && t < len(s) ==> s[t] == zero(T)
+//@   ensures forall k int {row(s)[k]} :: k < off(s) || k >= off(s) + len(s) ==> row(s)[k] == old(row(s)[k])
+
+//@ func LastIndexFunc
+//@   props C19
+//@   requires f != nil
+//@   loop 0: invariant -1 <= i && i < len(s) && (forall t int {s[t]} :: i < t && t < len(s) ==> !f(s[t]))
+//@   ensures -1 <= result && result < len(s) && (result >= 0 ==> f(s[result])) && (forall t int {s[t]} :: result < t && t < len(s) ==> !f(s[t]))
+
+//@ func LastIndex
+//@   props C19
+//@   loop 0: invariant -1 <= i && i < len(s) && (forall t int {s[t]} :: i < t && t < len(s) ==> s[t] != x)
+//@   ensures -1 <= result && result < len(s) && (result >= 0 ==> s[result] == x) && (forall t int {s[t]} :: result < t && t < len(s) ==> s[t] != x)
+
+//@ func Map
+//@   props C19
+//@   requires f != nil
+//@   loop 0: invariant len(out) == len(s) && fresh(out) && off(out) == 0 && (forall t int {out[t]} :: 0 <= t && t < idx0 ==> out[t] == f(s[t]))
+//@   ensures len(result) == len(s) && fresh(result) && (forall t int {result[t]} :: 0 <= t && t < len(s) ==> result[t] == f(s[t]))
+
+//@ func Repeat
+//@   props C19
+//@   panics when n < 0
+//@   loop 0: invariant len(out) == n && fresh(out) && off(out) == 0 && (forall t int {out[t]} :: 0 <= t && t < idx0 ==> out[t] == s)
+//@   ensures len(result) == n && fresh(result) && (forall t int {result[t]} :: 0 <= t && t < n ==> result[t] == s)
+
+//@ func Reverse
+//@   props C19
+//@   modifies elems(s)
+//@   loop 0: invariant 0 <= i && i <= len(s)/2
+//@   loop 0: invariant forall t int {s[t]} :: 0 <= t && t < i ==> s[t] == old(s[len(s)-1-t]) && s[len(s)-1-t] == old(s[t])
+//@   loop 0: invariant forall t int {s[t]} :: i <= t && t < len(s) - i ==> s[t] == old(s[t])
+//@   loop 0: invariant forall k int {row(s)[k]} :: k < off(s) || k >= off(s) + len(s) ==> row(s)[k] == old(row(s)[k])
+//@   ensures forall t int {s[t]} :: 0 <= t && t < len(s) ==> s[t] == old(s[len(s)-1-t])
+//@   ensures forall k int {row(s)[k]} :: k < off(s) || k >= off(s) + len(s) ==> row(s)[k] == old(row(s)[k])
+
+//@ ufun sfoldl(f, init, s, hi) @1
+//@ axiom sfoldl(f, initial, s, 0) == initial
+//@ axiom forall hi int {sfoldl(f, initial, s, hi)} :: 0 < hi ==> sfoldl(f, initial, s, hi) == f(sfoldl(f, initial, s, hi-1), s[hi-1])
+
+//@ func Reduce
+//@   props C19
+//@   requires f != nil
+//@   loop 0: invariant out == sfoldl(f, initial, s, idx0)
+//@   ensures result == sfoldl(f, initial, s, len(s))
+
+//@ func Chunk
+//@   props C07 C19
+//@   panics when chunkSize <= 0
+//@   loop 0: invariant fresh(out) && off(out) == 0 && len(out) * chunkSize >= len(s) && (len(out) - 1) * chunkSize < len(s) && (len(s) == 0 ==> len(out) == 0)
+//@   loop 0: invariant forall t int {out[t]} :: 0 <= t && t < idx0 ==> out[t] == s[t*chunkSize : min((t+1)*chunkSize, len(s))]
+//@   ensures fresh(result) && len(result) * chunkSize >= len(s) && (len(result) - 1) * chunkSize < len(s) && (len(s) == 0 ==> len(result) == 0)
+//@   ensures forall t int {result[t]} :: 0 <= t && t < len(result) ==> result[t] == s[t*chunkSize : min((t+1)*chunkSize, len(s))]
